@@ -315,7 +315,7 @@ func TestC05(t *testing.T) {
 		"float64 direct convolution with the gamma_K forward bound (K = C*kh*kw + 1); a refusal is allowed by the statement ('a configuration the library does not implement is refused')")
 	defer reportKnownFindings("C05")
 
-	check(t, "conv", 5000, 100000, func(rt *rapid.T) {
+	check(t, "conv", 5000, 60000, func(rt *rapid.T) {
 		var c c05Case
 		c.g = genConvGeom(rt)
 		c.dt = rapid.SampledFrom([]tensor.Dtype{tensor.Float32, tensor.Float32, tensor.Float64}).Draw(rt, "dtype")
